@@ -28,15 +28,17 @@ let dispatch = function
       (match lib_sign_prefix (z_of d) (bytes_of_hex m) (kopt k) (z_of ht) with
        | Some ((r, s), der) -> str_z r ^ " " ^ str_z s ^ " " ^ hex_of_bytes der
        | None -> "ERR")
+  | ["verify"; dg; sg; pk; form] when String.length form = 3 && form.[2] = 'L' ->
+      (* Key(pk, strict=False): the tolerant key reading, then the point-level model *)
+      let sg = bytes_of_hex sg in
+      (match lib_pub_point_lax (bytes_of_hex pk) with
+       | None -> "ERR" ^ flags sg None
+       | Some q -> vres (lib_verify (bytes_of_hex dg) sg q) ^ flags sg (Some q))
   | "verify" :: dg :: sg :: pk :: _ ->
       let sg = bytes_of_hex sg in
-      (match lib_pub_point (bytes_of_hex pk) with
-       | None -> "BADKEY"
-       | Some q -> vres (lib_verify (bytes_of_hex dg) sg q) ^ flags sg (Some q))
+      vres (lib_verify_key (bytes_of_hex dg) sg (bytes_of_hex pk)) ^ flags sg None
   | "specverify" :: dg :: sg :: pk :: _ ->
-      (match lib_pub_point (bytes_of_hex pk) with
-       | None -> "BADKEY"
-       | Some q -> vres (spec_verify (lib_z (bytes_of_hex dg)) (bytes_of_hex sg) q))
+      vres (spec_verify_key (lib_z (bytes_of_hex dg)) (bytes_of_hex sg) (bytes_of_hex pk))
   | ["parse"; sg] ->
       let sg = bytes_of_hex sg in
       (match lib_parse sg with
